@@ -24,7 +24,9 @@ def truncate_world(scenario, n_new):
         if isinstance(o, dict):
             return {k: cut(v) for k, v in o.items()}
         if isinstance(o, list):
-            if len(o) == n and not (o and isinstance(o[0], dict) and "kind" in o[0]):
+            # a minute series: n scalars (or per-minute dicts); not a list of markets, and not a list of book levels /
+            # pairs that merely happens to have n entries
+            if len(o) == n and not (o and isinstance(o[0], dict) and "kind" in o[0]) and not any(isinstance(x, list) for x in o):
                 return [cut(x) for x in o[:n_new]]
             return [cut(x) for x in o]
         return o
